@@ -77,6 +77,11 @@ func verifSameStyle(a, b Style) bool {
 // graphemes and styles for every transition between two neighbouring cells.
 func VerifC18StyledString() {
 	colours := zzverif.Param("colours") != 0
+	// with or without the user option that makes the library write the legacy (semicolon)
+	// forms of the extended colours
+	if colours && zzverif.Bool("forceLegacySGR") {
+		VerifForceLegacySGR()
+	}
 	vx := verifBareVaxis(4, 2)
 	c1 := Cell{Character: Character{Grapheme: "a", Width: 1}}
 	if zzverif.Param("first") != 0 {
@@ -106,6 +111,11 @@ func VerifC18StyledString() {
 // the cooperative schedule) returns the same graphemes and styles.
 func VerifC18Cells() {
 	colours := zzverif.Param("colours") != 0
+	// with or without the user option that makes the library write the legacy (semicolon)
+	// forms of the extended colours
+	if colours && zzverif.Bool("forceLegacySGR") {
+		VerifForceLegacySGR()
+	}
 	c1 := Cell{Character: Character{Grapheme: "a", Width: 1}}
 	if zzverif.Param("first") != 0 {
 		c1.Style = verifSymStyle("s1", colours)
